@@ -9,6 +9,7 @@ MODELS = {
     "fmt": "stub: alloc::fmt::format -> String::with_capacity + write_fmt (identical output)",
     "memchr": "stub: core::slice::memchr::memchr -> naive loop (identical result)",
     "lemma-queue": "composition lemma queue-induction (on paper): the empty channel satisfies the acceptance-order invariant and each operation preserves it, so the one-step verdicts extend to histories of any length",
+    "contract-ewp": "contract stub for Span::enter_with_parent in the add_event/add_properties harnesses (child = Span::new(parent's issued token, name, None)); the real function is decided separately by sp_enter_with_parents_links and sp_from_span_fields",
     "kani": "Kani 0.68 MIR->goto translation, CBMC 6.11 symbolic execution, CaDiCaL; dev profile (debug assertions and overflow checks on)",
 }
 
@@ -69,15 +70,74 @@ for n, props, sym in [
 ]:
     H("fastrace", "util::spsc", n, props, sym=sym, bound=QB, models=QM)
 
-PROPS = {
-    "C02": dict(
-        design_ref="DESIGN.md §5 C02",
-        bounds="ids: every generator state; linking: <=4 queue steps, tokens of <=2 items",
-        not_covered=["the record handed to the reporter (collector side: amend_*, fan-out in handle_commands)",
-                     "distinctness of ids across threads (random 32-bit prefix: probabilistic)",
-                     "the zero id needs prefix=0 and a wrapped counter: assumption, not a finding"],
-    ),
-}
+# ---------------------------------------------------------------- SpanQueue (C02, C06, C09, C10, C18)
+SQM = ("kani", "tls", "clock")
+H("fastrace", "local::span_queue", "sq_tree_links_and_times", ["C02", "C10", "C18"],
+  sym="id generator state (2^64), clock start, every clock step (u8 each)", bound="fixed tree shape a(b,c(d)),e: 5 spans, depth 3", models=SQM)
+H("fastrace", "local::span_queue", "sq_step_start_from_any_state", ["C02", "C10"],
+  sym="two recorded spans with arbitrary ids/parents/instants, arbitrary next_parent_id, generator state, clock", bound="one start_span from an arbitrary queue state", models=SQM)
+H("fastrace", "local::span_queue", "sq_step_finish_from_any_state", ["C10", "C18"],
+  sym="two recorded spans with arbitrary ids/parents/instants, which one is finished, clock", bound="one finish_span from an arbitrary queue state satisfying its precondition", models=SQM)
+H("fastrace", "local::span_queue", "sq_attach_under_innermost", ["C06", "C18"],
+  sym="id generator state, clock", bound="fixed sequence: event / properties at depth 0,1,2 and after a child finished; 6 records", models=SQM)
+H("fastrace", "local::span_queue", "sq_with_properties_hits_handle", ["C06"], tier="thorough", mem_gb=20,
+  sym="which of the two open spans the handle denotes", bound="two open spans, one with_properties call on a symbolic choice of them", models=SQM)
+for _c in (1, 2):
+    H("fastrace", "local::span_queue", f"sq_capacity_limit_{_c}", ["C09"],
+      sym="id generator state, clock", bound=f"capacity {_c} (the code compares only len against the stored capacity)", models=SQM)
 
-for _p, _b in [("C01", QB), ("C04", QB), ("C09", QB)]:
-    PROPS.setdefault(_p, dict(design_ref=f"DESIGN.md §5 {_p}", bounds=_b, not_covered=[]))
+# ---------------------------------------------------------------- sender link (span.rs)
+SPM = ("kani", "tls", "ring", "clock", "rand")
+SPB = "one API call on a span built directly from its private fields; tokens of 1..2 items; ring model in observe-and-discard mode, full / not full symbolic"
+for n, props, sym in [
+    ("sp_drop_root_pushes_submit_then_commit", ["C01", "C09", "C18"], "token item (trace/parent/collect ids, flags), span id, begin instant, collect id, clock, ring full or not"),
+    ("sp_drop_child_pushes_one_submit", ["C01", "C05"], "1..2 token items with symbolic ids and flags, span id"),
+    ("sp_drop_unsampled_pushes_no_spans", ["C05", "C16"], "1..2 unsampled token items, root or child"),
+    ("sp_cancel_only_roots", ["C04", "C09"], "token item, collect id, root or child, ring full or not"),
+    ("sp_unsampled_add_event_pushes_nothing", ["C05", "C16"], "unsampled token item"),
+    ("sp_unsampled_add_properties_pushes_nothing", ["C05", "C16"], "unsampled token item"),
+    ("sp_add_event_shape", ["C06", "C18"], "token item, span id, clock"),
+    ("sp_add_properties_shape", ["C06"], "token item, span id"),
+    ("sp_with_properties_appends", ["C06"], "token item"),
+    ("sp_from_span_fields", ["C02", "C11"], "1..2 token items with symbolic ids and flags, span id"),
+    ("sp_enter_with_parents_links", ["C02"], "two parents' token items and ids, one no-op parent in between"),
+    ("sp_noop_parents", ["C11", "C16"], "none"),
+    ("sp_root_creation", ["C05", "C11", "C16"], "context (trace id, span id, sampled), reporter installed or not, next collect id"),
+    ("sp_push_child_spans_shape", ["C17"], "two parents' token items and ids, raw span id"),
+    ("sp_elapsed", ["C18"], "begin instant, clock"),
+]:
+    heavy = n in ("sp_enter_with_parents_links",)
+    H("fastrace", "span", n, props, sym=sym, bound=SPB, mem_gb=24 if heavy else 12, cap_s=1800 if heavy else 900,
+      tier="thorough" if heavy else "quick",
+      models=SPM + (("contract-ewp",) if n in ("sp_add_event_shape", "sp_add_properties_shape", "sp_unsampled_add_event_pushes_nothing", "sp_unsampled_add_properties_pushes_nothing") else ()))
+
+COLLECTOR_OUT = "everything downstream of Receiver::try_recv (handle_commands, per-trace maps, amend/mount, Reporter::report, report interval, flush())"
+
+PROPS = {
+    "C01": dict(bounds=QB, not_covered=[COLLECTOR_OUT, "exactly-once across collector cycles", "producer and consumer both at ring-operation granularity at the same time"]),
+    "C02": dict(bounds="ids: every generator state; linking: fixed 5-span tree + one step from an arbitrary 2-record queue state; tokens of <=2 items",
+                not_covered=["the record handed to the reporter (amend_*, fan-out of multi-item tokens in handle_commands)",
+                             "distinctness of ids across threads (random 32-bit prefix: probabilistic)",
+                             "the zero id (needs prefix=0 and a wrapped counter): assumed away"]),
+    "C03": dict(bounds="", not_covered=[COLLECTOR_OUT]),
+    "C04": dict(bounds=QB, not_covered=[COLLECTOR_OUT, "that the collector discards a dropped trace and spares traces sharing a multi-parent span",
+                                        "cancel() in the default configuration (collector behaviour)"]),
+    "C05": dict(bounds="tokens of <=2 items with symbolic ids and flags; one API call per harness", not_covered=[COLLECTOR_OUT, "the CommitCollect(usize::MAX) an unsampled root force-sends is ignored by the collector"]),
+    "C06": dict(bounds="fixed attachment sequences with symbolic ids/clock; strings are opaque literals compared by pointer+length", not_covered=[COLLECTOR_OUT, "mount_danglings / amend_* (parking and merging of pseudo-spans)", "string contents"]),
+    "C07": dict(bounds="the listed API paths, each 1..3 calls", not_covered=["calls that ship a span while the collector thread runs", "flush()", "reporter callbacks", "stack overflow, allocation failure"]),
+    "C08": dict(bounds="", not_covered=[COLLECTOR_OUT]),
+    "C09": dict(bounds=QB + "; SpanQueue capacity <= 3, span stack capacity <= 2", not_covered=[COLLECTOR_OUT, "the production capacities 10240/4096 (the code only compares lengths with the stored capacity)"]),
+    "C10": dict(bounds="depth <= 2 scopes, <= 5 spans per scope, <= 3 stack operations per harness; deeper nesting by stack-top-locality (on paper)", not_covered=["!Send of guards is a compiler fact", "arbitrary-depth programs (induction on paper)"]),
+    "C11": dict(bounds="tokens of 1..2 items, all id values", not_covered=[COLLECTOR_OUT, "the remote child's delivered record"]),
+    "C12": dict(bounds="encode: all 2^193 contexts; decode: all ASCII strings up to L bytes and field-shaped inputs with fields <= 3 chars", not_covered=["decoding of longer fields / the full 55-character string (uniformity of str::split and from_str_radix is std's contract)", "serde"]),
+    "C13": dict(bounds="<= 2 polls per harness, one adapter", not_covered=[COLLECTOR_OUT, "more than 2 polls, nesting of adapters"]),
+    "C14": dict(bounds="<= 2 calls per harness", not_covered=[COLLECTOR_OUT]),
+    "C15": dict(bounds="a fixed corpus of annotated function shapes, all argument values (u8/bool/Option<u8>)", not_covered=["functions outside the corpus (the proc-macro itself is not executed by the engine)", "drop order of unused by-value arguments"]),
+    "C16": dict(bounds="every public entry point once, closures flagged", not_covered=["'no thread' (threads are not modelled)", "set_reporter / flush are never executed"]),
+    "C17": dict(bounds="sets of <= 2 local spans, 1..2 parents", not_covered=[COLLECTOR_OUT, "to_span_records vs the collector path end to end"]),
+    "C18": dict(bounds="fixed shapes, every clock step 0..255 per reading, clock start < 2^62", not_covered=["wall-clock window", "the float cycle->ns scaling of fastant", "one anchor per collector cycle"]),
+    "C19": dict(bounds="one record, symbolic integer fields", not_covered=["wire bytes (thrift_codec, rmp-serde, OTel SDK)", "strings"]),
+    "C20": dict(bounds="batches of <= 4 spans, every size vector in 1..=9000 per span", not_covered=["additivity of the real encoder's length (oracle assumption)", "send_to errors"]),
+}
+for _p, _d in PROPS.items():
+    _d.setdefault("design_ref", f"DESIGN.md §5 {_p}")
